@@ -33,15 +33,15 @@ CLAIMED = {
 
 CLAIMED["C02"] = dict(
     engine="E1+E5",
-    technique="static analysis: loop-pair (validate/apply) agreement over resolved expressions, CFG guard dominance on every insertion into ParameterList::parameters_, clone-vs-share classification, per-iteration counter lock-step; early-exit rule on validation loops; order rule for positional bulk erase; shared copy rule (members, clone vs share, reset on every path)",
+    technique="static analysis: loop-pair (validate/apply) agreement over resolved expressions, CFG guard dominance on every insertion into ParameterList::parameters_, clone-vs-share classification, per-iteration counter lock-step; early-exit rule on validation loops; order rule for positional bulk erase; shared copy rule (members, clone vs share, reset on every path); refusing look-ups of the apply pass repeated by the validation pass under no extra filter; collision branch of include*/share* stores through setValue",
     level=("Static rules decide, for all lists and values: each bulk setter validates the TARGET's constraint on the very value it later stores, over the same range and filter, in a loop that dominates the "
            "apply loop; flag/store/position are recorded together and the position counter advances exactly once per iteration; every insertion into a list (whole program) keeps names unique; copy "
-           "functions store clones and share functions the source's pointer; index-set deletion sorts a copy, walks it descending and range-checks; owners notify only after the list operation returned. A validation pass cannot be left before the last entry; positions of an index set are erased in descending order."),
+           "functions store clones and share functions the source's pointer; index-set deletion sorts a copy, walks it descending and range-checks; owners notify only after the list operation returned. A validation pass cannot be left before the last entry; positions of an index set are erased in descending order. A look-up that throws for an absent name is made by the validation pass for every entry the apply pass makes it for; on an existing name include*/share* update the value through Parameter::setValue, never by whole-object assignment or pointer replacement."),
     note=TB + "Not decided: 'exactly the named entries' as a value statement, precision>0 corner cases, atomicity when a listener throws during the apply pass, setParameter(index,param).")
 
 CLAIMED["C20"] = dict(
     engine="E3+E1",
-    technique="static analysis: abstract interpretation of Range primitives over all order types of the end points; must-pass-through (clean_ after mutation), clone/ownership pairing and erase-advance rules on the CFG; shared copy rule (members, reset on every path of operator=); argument-swap rule",
+    technique="static analysis: abstract interpretation of Range primitives over all order types of the end points; must-pass-through (clean_ after mutation), clone/ownership pairing and erase-advance rules on the CFG; shared copy rule (members, reset on every path of operator=); argument-swap rule; order-permuting std algorithms on the owned list count as mutations that need clean_()",
     level=("For Range/RangeSet/MultiRange<int|unsigned long|double>: overlap/contains/isContiguous/isEmpty/expandWith/sliceWith/==/!=/constructor equal half-open interval arithmetic on every order type "
            "(exhaustive truth table from the syntax tree); shifts treat both ends alike; copies store clones and assignment clears first; every MultiRange mutator re-establishes the canonical form via clean_ "
            "(std::sort with rangeComp_ + removal of empties); erase loops do not skip the element that slides into an erased slot; delete/erase/clear pairing of owned pointers. operator= empties the owned list on every path except self-assignment."),
@@ -49,10 +49,10 @@ CLAIMED["C20"] = dict(
 
 CLAIMED["C03"] = dict(
     engine="E1+E4+E5",
-    technique="static analysis: state-preserving-cycle search on the CFG with exception edges and callee effect summaries; assign-reset, fresh-object (clone -> retarget -> store) typestate, throw-after-mutation reachability, must-pass bookkeeping; shared copy rule incl. fix-up loop range agreement between copy constructor and operator=",
+    technique="static analysis: state-preserving-cycle search on the CFG with exception edges and callee effect summaries; assign-reset, fresh-object (clone -> retarget -> store) typestate, throw-after-mutation reachability, must-pass bookkeeping; shared copy rule incl. fix-up loop range agreement between copy constructor and operator=; index-space agreement of the (position, list) pair given to every alias listener",
     level=("Static rules decide: no loop of the bulk-alias routine can cycle without writing loop state (termination clause, for every map); operator= clears what it re-populates; cloned listeners are "
            "re-targeted to the copy's own list before being registered/attached and shared pointers come from the copy itself; refusals precede every mutation in alias/unalias; the three bookkeeping "
-           "steps happen on every normal path on the right parameters; setNamespace renames listeners before the base class; the intersected constraint is installed on both parameters."),
+           "steps happen on every normal path on the right parameters; setNamespace renames listeners before the base class; the intersected constraint is installed on both parameters; an alias listener is built with a position looked up in the very list it is bound to."),
     note=TB + "Not decided: value equality through alias chains after arbitrary histories, cycles longer than two, listener firing order.")
 
 CLAIMED["C15"] = dict(
@@ -66,27 +66,27 @@ CLAIMED["C15"] = dict(
 
 CLAIMED["C13"] = dict(
     engine="E6+E5",
-    technique="static analysis: structural inference of memo keys and lazy flags, reset/cover rules on the CFG of every fireParameterChanged sibling, lazy-flag coverage via callee effect summaries, sibling protocol and copy/assign member agreement; reference-aliasing rule at call sites of update-by-scalar helpers (callee summaries: which const-reference scalars are read inside a loop that writes the container); accessor/view expression agreement of the transition models; argument-swap rule",
+    technique="static analysis: structural inference of memo keys and lazy flags, reset/cover rules on the CFG of every fireParameterChanged sibling, lazy-flag coverage via callee effect summaries, sibling protocol and copy/assign member agreement; reference-aliasing rule at call sites of update-by-scalar helpers (callee summaries: which const-reference scalars are read inside a loop that writes the container); accessor/view expression agreement of the transition models; argument-swap rule; path rule fill -> shift-by-maximum -> sumExp on log-domain vectors (helpers followed); who-permutes rule on the positional per-segment tables (reference locals resolved)",
     level=("Static rules decide the history clause ('answers depend only on the current parameter values'): every notification that recomputes the forward pass resets the derivative memo keys and the backward "
            "lazy flags on the same paths; a method that marks a transition model up to date has computed every result served under that flag; the three likelihood classes follow one update protocol; "
-           "copy constructor and operator= copy the same members. No call hands an update-by-scalar helper an element of the vector it updates; Pij(i,j) and the entry getPij() stores are the same expression."),
+           "copy constructor and operator= copy the same members. No call hands an update-by-scalar helper an element of the vector it updates; Pij(i,j) and the entry getPij() stores are the same expression. A vector of log-likelihoods is reduced by its maximum on every path before VectorTools::sumExp exponentiates it; the per-segment tables are never reordered in place."),
     note=TB + "Not decided: numerical equality of the three algorithms, agreement with path enumeration, derivative values, stochasticity/stationarity of built-in matrices, flat-array index ranges (E2 not applied here).")
 
 CLAIMED["C12"] = dict(
     engine="E4+E5+E1+E7",
-    technique="static analysis: acquire/release typestate on the CFG (enable-flag pairing, probe->restore with stable-fact path restriction), entry-point sibling agreement, guard dominance for delegation, table agreement between the name->slot map and slot writes; reaching-definition walk naming the point of every probe value + computer-algebra identity check of each difference formula on generic polynomials (sympy; re-execs under python3-vt); values assigned inside a try body are stale in its handlers unless taken again",
+    technique="static analysis: acquire/release typestate on the CFG (enable-flag pairing, probe->restore with stable-fact path restriction), entry-point sibling agreement, guard dominance for delegation, table agreement between the name->slot map and slot writes; reaching-definition walk naming the point of every probe value + computer-algebra identity check of each difference formula on generic polynomials (sympy; re-execs under python3-vt); values assigned inside a try body are stale in its handlers unless taken again; must-pass store of the served value member; real-zero test of every probing step (sympy solveset); path-sensitive reachability (boolean flags and small counters followed) for name locals declared empty",
     level=("Static rules decide the transparency clauses for every input and history: all six update entry points forward then update with what was set; every variable shifted for a probe is restored from the "
            "unmodified argument on every path to the normal exit; analytic derivatives switched off for probing are switched back on at every normal exit; the cached derivative is served only for selected "
            "variables with computing on, else delegated; the selection table is rebuilt from scratch; constraint-hit handlers flip the probing side or use one-sided formulas; slots are indexed by selection position; every difference formula stored into a derivative slot, "
-           "read with the points at which its values were taken, is exact for all polynomials of degree <= max(order, points-1) identically in the step sizes (mixed derivative: total degree 2)."),
+           "read with the points at which its values were taken, is exact for all polynomials of degree <= max(order, points-1) identically in the step sizes (mixed derivative: total degree 2). The member getValue() returns is stored on every path of an update; no probing step has a real zero as a function of the parameter value; a name local declared empty is assigned on every feasible path before it reaches createSubList."),
     note=TB + "Not decided: convergence order beyond the exactness degree, rounding, that a retry loop that gives up leaves its snapshot at 0 (modelling assumption of D7), exceptional exits.")
 
 CLAIMED["C09"] = dict(
     engine="E6+E1+E8",
-    technique="static analysis: rebuild-after-change must-pass on every notification/entry point, structural inference of parameter caches and constructor-derived state, clear-before-fill dominance, index-equals-size, throw-type typing, strict/inclusive polarity typing of booleans, lookup-loop coverage, copy/assign member agreement; shared copy rule (clone vs share of owning pointers); argument-swap rule",
+    technique="static analysis: rebuild-after-change must-pass on every notification/entry point, structural inference of parameter caches and constructor-derived state, clear-before-fill dominance, index-equals-size, throw-type typing, strict/inclusive polarity typing of booleans, lookup-loop coverage, copy/assign member agreement; shared copy rule (clone vs share of owning pointers); argument-swap rule; re-derivation must-pass from every cache reload; running (point, value) pair initialisation; accumulate-not-assign rule for weighted contributions of compound rebuilds",
     level=("Static rules decide, for every family and history: every accepted change (parameter, class count, median, restriction) reaches a rebuild after its last state write, compounds updating their components first; "
            "every member caching a parameter or derived from one in the constructor is refreshed before the rebuild; rebuilds clear before filling; no access at an index equal to the established size; only library "
-           "exceptions; booleans handed to 'strict' parameters have strict polarity and class values used as bounds are included; value lookups compare every interior bound; copy constructor and operator= agree. copy constructor and operator= agree on cloning the domain interval."),
+           "exceptions; booleans handed to 'strict' parameters have strict polarity and class values used as bounds are included; value lookups compare every interior bound; copy constructor and operator= agree. copy constructor and operator= agree on cloning the domain interval. A member derived from a parameter cache is re-derived on every path on which the cache was reloaded; a running partial expectation starts as the function of the starting bound; a mixture adds up the weighted class probabilities of its components."),
     note=TB + "Not decided: probabilities summing to one, values inside their interval, discrete mean, cumulative/quantile consistency, stick-breaking weights of mixtures (numerical).")
 
 CLAIMED["C18"] = dict(
@@ -107,10 +107,10 @@ CLAIMED["C16"] = dict(
 
 CLAIMED["C14"] = dict(
     engine="E1+E5+E4",
-    technique="static analysis: guard dominance for inserting reads of the node/edge tables, mirrored-call sibling rule (link vs unlink under '!directed_'), must-pass notification after erase (through private helpers), co-update of map groups, assign-reset and re-subscription order, inverse-map write agreement, refusal-before-write ordering with effect summaries that follow iterators into the tables, discarded-insert-result rule on the relation maps; strict size guard rule for at()/operator[]; sibling agreement of the sixteen neighbour-iterator constructors",
+    technique="static analysis: guard dominance for inserting reads of the node/edge tables, mirrored-call sibling rule (link vs unlink under '!directed_'), must-pass notification after erase (through private helpers), co-update of map groups, assign-reset and re-subscription order, inverse-map write agreement, refusal-before-write ordering with effect summaries that follow iterators into the tables, discarded-insert-result rule on the relation maps; strict size guard rule for at()/operator[]; sibling agreement of the sixteen neighbour-iterator constructors; emptied-before-refill rule for the observer's slot tables (resize alone keeps old slots); start()/next() sibling agreement on the skip loop of the observer iterators",
     level=("Static rules decide for every history: the node/edge tables never gain phantom entries through an unguarded operator[] read; unlink mirrors link for undirected graphs; every deletion reaches the observer "
            "notification; an object forgotten by an observer is forgotten in every map; observer assignment clears, unsubscribes and re-subscribes; paired inverse maps are written consistently (copy constructors included); no member refuses after it has changed the tables (own throws, precondition helpers, and the mirrored test-then-erase helper for a node's relation with itself); "
-           "a relation recorded with a discarded insert() result is preceded by an absence test (refuted on the pinned tree: known finding, parallel edges). An index compared with a table's size before at() is compared strictly; all spellings of the outgoing (incoming) neighbour iterators walk the same relation map."),
+           "a relation recorded with a discarded insert() result is preceded by an absence test (refuted on the pinned tree: known finding, parallel edges). An index compared with a table's size before at() is compared strictly; all spellings of the outgoing (incoming) neighbour iterators walk the same relation map. Observer assignment empties its slot tables before refilling them; start() and next() of the observer's iterators both skip graph elements without an object."),
     note=TB + "Not decided: agreement with a reference multigraph over histories, iterator contents vs list queries, unchecked find() results on absent ids in protected members (undefined behaviour tolerated by libstdc++).")
 
 CLAIMED["C11"] = dict(
@@ -138,10 +138,10 @@ CLAIMED["C17"] = dict(
 
 CLAIMED["C10"] = dict(
     engine="E1+E5",
-    technique="static analysis: call-graph reachability of doStep()/step() from loops and their exit conditions, dominance/ordering of the constraint-policy installation, argument provenance of bracketing/line-search calls, restore-before-return path rule, feasible state-preserving-cycle search on every loop, evaluation-point freshness typestate, evaluation accounting, abscissa/value pairing of parallel transfers (pairs grounded in evaluation events, propagated and cross-checked per straight-line region); shared copy rule on the optimiser classes (members, clone vs share, re-binding of cloned helpers); argument-swap rule",
+    technique="static analysis: call-graph reachability of doStep()/step() from loops and their exit conditions, dominance/ordering of the constraint-policy installation, argument provenance of bracketing/line-search calls, restore-before-return path rule, feasible state-preserving-cycle search on every loop, evaluation-point freshness typestate, evaluation accounting, abscissa/value pairing of parallel transfers (pairs grounded in evaluation events, propagated and cross-checked per straight-line region); shared copy rule on the optimiser classes (members, clone vs share, re-binding of cloned helpers); argument-swap rule; guard/action agreement of bound-selecting if-chains; refresh-before-init path rule for nested optimiser hand-overs; distinct-columns rule for two stores of one block into a two-dimensional member",
     level=("Narrow structural claim: the only loops driving an optimiser's own steps are capped by the evaluation budget; the automatic/ignore constraint policy is installed on the optimiser's own list before anything is "
            "evaluated, covers every parameter, is re-applied on copy, and bracketing/line search work on that list; a step that gives up restores the objective before reporting the old value; no loop can cycle without changing state; the objective is evaluated at the abscissa its value is then filed under; "
-           "every move, shift, swap, selection or bracket update of an evaluated point keeps the value with its abscissa. Copy constructor and operator= of the optimisers copy the same members and re-bind the cloned stop conditions to the new object in both."),
+           "every move, shift, swap, selection or bracket update of an evaluated point keeps the value with its abscissa. Copy constructor and operator= of the optimisers copy the same members and re-bind the cloned stop conditions to the new object in both. A branch selected by a comparison with one bound vector computes with that bound; a stored list handed to a nested optimiser is refreshed from the current parameters first; a direction replaced in the direction set is saved before it is overwritten."),
     note=TB + "Not decided: descent, reported value = f(reported point) beyond the pairing of transfers, convergence on quadratics, feasibility of every evaluation, bracketing triples: these are values of runs.")
 
 CLAIMED["C08"] = dict(
@@ -154,16 +154,16 @@ CLAIMED["C08"] = dict(
 
 CLAIMED["C04"] = dict(
     engine="E2+E5+E8",
-    technique="static analysis: symbolic index-bound analysis of every instantiated MatrixTools kernel (index ranges and container dimensions as polynomials over size symbols, facts from throwing guards and resize calls on every path, refutation only with a witness shape whose reachability is decided by control dependence), accessor agreement of the three storage classes, implicit-conversion scan, identity-element / accumulator-reset dominance rules; must-pass of the inner sizing in resize; computer-algebra check that a scalar shortcut is taken only where the element update is the identity; argument-swap rule",
+    technique="static analysis: symbolic index-bound analysis of every instantiated MatrixTools kernel (index ranges and container dimensions as polynomials over size symbols, facts from throwing guards and resize calls on every path, refutation only with a witness shape whose reachability is decided by control dependence), accessor agreement of the three storage classes, implicit-conversion scan, identity-element / accumulator-reset dominance rules; must-pass of the inner sizing in resize; computer-algebra check that a scalar shortcut is taken only where the element update is the identity; argument-swap rule; output coverage (union of the index boxes written after a resize covers the whole output, on a grid of witness shapes)",
     level=("Decides the shape clauses only: every element access of every MatrixTools kernel stays inside the dimensions that the guards and resize calls on its path establish for all shapes (incl. 0xn, 1xn, non-square, "
            "unsized outputs), non-conformable operands reach a throwing guard before the first access, the three storage classes address the same element in their const and non-const accessor and keep their counters "
            "in step with the storage, kernels have no implicit floating->integral truncation, reductions start from the right identity and products zero their output entry. The entries' values, storage-independence "
-           "of the values and optimality/dual certificate of the assignment solver are NOT claimed. resize sizes the inner vectors on every path; a scalar early return is taken only where the update it skips is the identity."),
+           "of the values and optimality/dual certificate of the assignment solver are NOT claimed. resize sizes the inner vectors on every path; a scalar early return is taken only where the update it skips is the identity. A kernel that resizes an output (matrix or vector of matrices) and assigns entries assigns every entry, for every shape of the witness grid on which it does not throw."),
     note=TB + "sympy (tooling venv) does the polynomial comparisons. Data-dependent indices (the assignment solver's lists) stay UNKNOWN. Known findings: MatrixTools::lap (see known_findings.json).")
 
 CLAIMED["C05"] = dict(
     engine="E2+E1+E5+E3",
-    technique="static analysis: class-invariant extraction from constructor initialisers, symbolic index bounds under that invariant, guard dominance in solve, pairing rule (pivot-vector exchange / full-row exchange / sign flip), gather direction of the permuted copy, coverage of the smallest-pivot scan, product-rule index typing of every elimination and substitution update, magnitude comparison in the pivot search, finite case analysis of the triangular extraction, wrapper plumbing of inv/det",
+    technique="static analysis: class-invariant extraction from constructor initialisers, symbolic index bounds under that invariant, guard dominance in solve, pairing rule (pivot-vector exchange / full-row exchange / sign flip), gather direction of the permuted copy and its sizing on every path, coverage of the smallest-pivot scan, product-rule index typing of every elimination and substitution update, magnitude comparison in the pivot search, finite case analysis of the triangular extraction, wrapper plumbing of inv/det",
     level=("Structural necessary conditions of C05 on LUDecomposition and MatrixTools::inv/det: the stored shapes match their use for every square order >= 1, wrong-height right-hand sides and pivots below "
            "NumConstants::SMALL() reach a throw before any substitution, every row exchange is complete and recorded in both the pivot vector and the determinant's sign, the permuted copy applies the "
            "permutation in the right direction, the indicator is the minimum over the whole diagonal, all updates are well-typed matrix-product terms in the right triangle and order, the pivot is chosen by "
